@@ -98,7 +98,7 @@ def load_known():
 
 
 def write_replay(pid, seed, name, payload):
-    d = os.path.join(VERIF, "replays")
+    d = os.environ.get("VJX_REPLAY_DIR") or os.path.join(VERIF, "replays")
     os.makedirs(d, exist_ok=True)
     p = os.path.join(d, "%s-%s-%s.json" % (pid, seed, name))
     json.dump(payload, open(p, "w"), indent=1)
@@ -134,7 +134,7 @@ def main():
     obligations, discharged, problems, _ = proof_obligations(pid, thorough)
 
     # (2) implementation, from /repo's working tree
-    ok, log = runlib.build_harness()
+    ok, log = (True, "") if os.environ.get("VJX_SKIP_BUILD") else runlib.build_harness()
     if not ok:
         print("harness build failed (does /repo compile?):\n" + log)
         p = write_replay(pid, seed, "build-failed", {"log": log})
@@ -237,8 +237,9 @@ def main():
         "wall_s": round(time.time() - t0, 2),
         "violations": len(violations),
     }
-    os.makedirs(os.path.join(VERIF, "evidence"), exist_ok=True)
-    json.dump(ev, open(os.path.join(VERIF, "evidence", pid + ".json"), "w"), indent=1)
+    evdir = os.environ.get("VJX_EVIDENCE_DIR") or os.path.join(VERIF, "evidence")
+    os.makedirs(evdir, exist_ok=True)
+    json.dump(ev, open(os.path.join(evdir, pid + ".json"), "w"), indent=1)
 
     for l in known_lines:
         print(l)
